@@ -1,0 +1,97 @@
+//go:build verif
+// +build verif
+
+// Package vhook provides named delay-injection points for verification
+// builds (build tag "verif"). A point sleeps when it is listed in the
+// environment variable RCPROXY_VERIF_POINTS and counts how often it was
+// reached; the counters are appended to the file named by
+// RCPROXY_VERIF_HITS so that a harness can read back which windows were
+// actually opened.
+//
+//	RCPROXY_VERIF_POINTS = name=sleep(ms)[@prob],name=sleep(ms)...
+//	RCPROXY_VERIF_SEED   = seed of the PRNG deciding the @prob draws
+package vhook
+
+import (
+	"fmt"
+	"math/rand"
+	"os"
+	"strconv"
+	"strings"
+	"sync"
+	"time"
+)
+
+type point struct {
+	sleep time.Duration
+	prob  float64
+}
+
+var (
+	mu     sync.Mutex
+	points = map[string]point{}
+	hits   = map[string]int{}
+	slept  = map[string]int{}
+	rng    *rand.Rand
+	hitsTo string
+)
+
+func init() {
+	seed, _ := strconv.ParseInt(os.Getenv("RCPROXY_VERIF_SEED"), 10, 64)
+	rng = rand.New(rand.NewSource(seed))
+	hitsTo = os.Getenv("RCPROXY_VERIF_HITS")
+	for _, item := range strings.Split(os.Getenv("RCPROXY_VERIF_POINTS"), ",") {
+		item = strings.TrimSpace(item)
+		if item == "" {
+			continue
+		}
+		kv := strings.SplitN(item, "=", 2)
+		if len(kv) != 2 {
+			continue
+		}
+		spec := kv[1]
+		p := point{prob: 1}
+		if i := strings.IndexByte(spec, '@'); i >= 0 {
+			p.prob, _ = strconv.ParseFloat(spec[i+1:], 64)
+			spec = spec[:i]
+		}
+		if strings.HasPrefix(spec, "sleep(") && strings.HasSuffix(spec, ")") {
+			ms, _ := strconv.Atoi(spec[6 : len(spec)-1])
+			p.sleep = time.Duration(ms) * time.Millisecond
+		}
+		points[kv[0]] = p
+	}
+	if hitsTo != "" {
+		go flushLoop()
+	}
+}
+
+func flushLoop() {
+	for {
+		time.Sleep(200 * time.Millisecond)
+		mu.Lock()
+		var sb strings.Builder
+		for k, v := range hits {
+			fmt.Fprintf(&sb, "%s %d %d\n", k, v, slept[k])
+		}
+		mu.Unlock()
+		_ = os.WriteFile(hitsTo+".tmp", []byte(sb.String()), 0o644)
+		_ = os.Rename(hitsTo+".tmp", hitsTo)
+	}
+}
+
+// Point marks a named position between two steps of a goroutine that runs
+// concurrently with the event loop.
+func Point(name string) {
+	mu.Lock()
+	hits[name]++
+	p, ok := points[name]
+	doSleep := ok && p.sleep > 0 && (p.prob >= 1 || rng.Float64() < p.prob)
+	if doSleep {
+		slept[name]++
+	}
+	mu.Unlock()
+	if doSleep {
+		time.Sleep(p.sleep)
+	}
+}
